@@ -13,7 +13,9 @@
    K_base_dropped   a derived induction variable that stays derived is recomputed from a basic induction variable
                     that expand_optimizable_while_loop drops from the loop variables (MIR level)
    K_nested_break   the single statement under the guard's `if` contains a Break without being one: the loop has
-                    no break collector and the inner condition is lost (MIR level; with a collector: panic) *)
+                    no break collector and the inner condition is lost (MIR level; with a collector: panic)
+   K_sr_defs        strength reduction fires and the body still binds a reduced variable: the case the theorem
+                    C02loop_sr_preserves_partial leaves out (not an error class: counted for coverage only) *)
 From Coq Require Import ZArith NArith List Bool.
 Import ListNotations.
 From SV Require Import Common.Int32 C02.Kernels C02deep.Syntax C02deep.Passes
@@ -119,6 +121,27 @@ Definition K_base_dropped (lvs : list triple) (ss : list stmt) (bc : option name
   | None => false
   end.
 
+(* strength reduction fires and the body still binds a reduced variable (the case C02loop_sr_preserves_partial leaves out) *)
+Definition K_sr_defs (lvs : list triple) (ss : list stmt) (bc : option name) : bool :=
+  let '(_, inner, ninv) := licm lvs ss in
+  match extract lvs inner bc ninv with
+  | XOk o =>
+      match alg o [] with
+      | Some _ => false
+      | None =>
+          let o1 := match ive o [] with
+                    | Some (_, nb, nd, _) => mkowl nb (o_general o) (o_others o) nd (o_stmts o) (o_bc o)
+                    | None => o end in
+          match sr o1 [] with
+          | Some (_, o2, _) =>
+              existsb (fun x => memb x (binders_l (o_stmts o1)))
+                      (skipn (length (o_general o1)) (map gi_name (o_general o2)))
+          | None => false
+          end
+      end
+  | _ => false
+  end.
+
 Definition K_nested_break (lvs : list triple) (ss : list stmt) (bc : option name) : bool :=
   let '(_, inner, ninv) := licm lvs ss in
   match extract lvs inner bc ninv with
@@ -131,11 +154,11 @@ Definition b2N (b : bool) : N := if b then 1%N else 0%N.
 Definition classes_loop (lvs : list triple) (ss : list stmt) (bc : option name) : list N :=
   let iv := K_iv lvs ss bc in
   [b2N (K_licm_divmod lvs ss); b2N (K_guard_used lvs ss bc); b2N (fst (fst iv)); b2N (snd (fst iv)); b2N (snd iv);
-   b2N (K_base_dropped lvs ss bc); b2N (K_nested_break lvs ss bc)].
+   b2N (K_base_dropped lvs ss bc); b2N (K_nested_break lvs ss bc); b2N (K_sr_defs lvs ss bc)].
 
 Fixpoint addv (a b : list N) : list N :=
   match a, b with x :: r, y :: r' => (x + y)%N :: addv r r' | _, _ => [] end.
-Definition zerov : list N := [0; 0; 0; 0; 0; 0; 0]%N.
+Definition zerov : list N := [0; 0; 0; 0; 0; 0; 0; 0]%N.
 
 Fixpoint classes_stmt (st : stmt) : list N :=
   let fix go (ss : list stmt) : list N :=
